@@ -1,12 +1,14 @@
 package main
 
 import (
+	"encoding/json"
 	"fmt"
 	"io"
 	"io/fs"
 	"os"
 	"os/exec"
 	"path/filepath"
+	"sort"
 	"strings"
 )
 
@@ -237,6 +239,83 @@ func selftestSummary(p *Property, repo, verif string) []selftestResult {
 		r := runVariant(v, repo, verif)
 		fmt.Printf("sensitivity %-40s %-8s %s\n", v.Name, r.Status, r.Detail)
 		out = append(out, r)
+	}
+	out = append(out, seededRegression(p, repo, verif)...)
+	return out
+}
+
+// seededRegression re-applies every independently seeded change under <verif>/seeded that this property's check is
+// recorded to report (meta.json caught_by) to a scratch copy of the repository and requires it to be reported again.
+func seededRegression(p *Property, repo, verif string) []selftestResult {
+	var out []selftestResult
+	dirs, _ := filepath.Glob(filepath.Join(verif, "seeded", "*", "meta.json"))
+	sort.Strings(dirs)
+	for _, mf := range dirs {
+		b, err := os.ReadFile(mf)
+		if err != nil {
+			continue
+		}
+		var meta struct {
+			CaughtBy []string `json:"caught_by"`
+		}
+		if json.Unmarshal(b, &meta) != nil {
+			continue
+		}
+		mine := false
+		for _, c := range meta.CaughtBy {
+			if c == p.ID {
+				mine = true
+			}
+		}
+		if !mine {
+			continue
+		}
+		name := "seeded/" + filepath.Base(filepath.Dir(mf))
+		res := selftestResult{Name: name, Rule: p.ID}
+		tmp, err := os.MkdirTemp("", "stfs-verif-")
+		if err != nil {
+			res.Status, res.Detail = "broken", err.Error()
+			out = append(out, res)
+			continue
+		}
+		scratch := filepath.Join(tmp, "repo")
+		tverif := filepath.Join(tmp, "verif")
+		os.MkdirAll(filepath.Join(tverif, "evidence"), 0o755)
+		if kb, err := os.ReadFile(filepath.Join(verif, "known_findings.json")); err == nil {
+			os.WriteFile(filepath.Join(tverif, "known_findings.json"), kb, 0o644)
+		}
+		if err := copyTree(repo, scratch); err != nil {
+			res.Status, res.Detail = "broken", err.Error()
+		} else {
+			ap := exec.Command("git", "apply", filepath.Join(filepath.Dir(mf), "patch.diff"))
+			ap.Dir = scratch
+			if o, err := ap.CombinedOutput(); err != nil {
+				res.Status, res.Detail = "skipped", "patch no longer applies: "+truncate(strings.TrimSpace(string(o)), 120)
+			} else {
+				exe, _ := os.Executable()
+				cmd := exec.Command(exe, "-p", p.ID, "-tier", "quick", "-repo", scratch, "-verif", tverif)
+				o, _ := cmd.CombinedOutput()
+				text := string(o)
+				switch {
+				case strings.Contains(text, "BROKEN: type/load errors"):
+					res.Status, res.Detail = "skipped", "patched tree does not load"
+				case strings.Contains(text, "\nVIOLATION property="+p.ID) || strings.Contains(text, "UNRESOLVED anchor"):
+					res.Status = "caught"
+					for _, l := range strings.Split(text, "\n") {
+						t := strings.TrimSpace(l)
+						if strings.HasPrefix(t, "VIOLATED ") || strings.HasPrefix(t, "UNDECIDED ") || strings.HasPrefix(t, "UNRESOLVED ") {
+							res.Detail = truncate(t, 200)
+							break
+						}
+					}
+				default:
+					res.Status, res.Detail = "missed", "seeded change no longer reported: "+firstLine(text, "result ")
+				}
+			}
+		}
+		os.RemoveAll(tmp)
+		fmt.Printf("sensitivity %-40s %-8s %s\n", name, res.Status, res.Detail)
+		out = append(out, res)
 	}
 	return out
 }
